@@ -71,7 +71,7 @@ PROPS = {
                 "to a real endpoint versus a fresh connection per message; c04_client: the real HTTP client with one pooled connection, 2..8 requests one after the other, a scripted server that answers "
                 "with well-formed responses or with responses the client must refuse (too long, bad chunk size, header line without colon) whose last byte arrives with the read that makes the client refuse them; distinct = distinct (scenario, plan hash, event-log hash)",
         "probes_expected": ["after-first", "after-complete-no-body", "after-complete-content-length", "after-complete-chunked", "after-error-413-in-oversized-body",
-                            "after-error-400-in-chunked", "after-error-400-in-content-length", "l1-after-first", "l1-after-complete-chunked",
+                            "after-error-400-in-chunked", "after-error-400-in-content-length", "l1-after-first", "l1-fresh-connection-on-a-number-dropped-in-mid-message", "l1-after-complete-chunked",
                             "l1-after-error-413-in-oversized-body", "after-too-long", "after-too-long-tail", "after-bad-chunk", "after-bad-header", "after-good", "parked-request-timed-out"],
         "assumptions": ["every message starts in a new segment (pipelining inside one read is outside the statement)",
                         "an abandoned message ends with the segment that triggers the framework's error answer"],
